@@ -117,3 +117,90 @@ Proof.
   subst l2. split; [reflexivity|]. exact (canon_unique K V cmp layer bf m1 m2 l1 C1 C2).
 Qed.
 End CANONEXT.
+
+(** * undo laws on sorted listings: inserting a key that was absent and deleting it again, or deleting
+    a key and inserting its old value again, gives back the very same listing - with canonical form
+    (C04) the very same tree, whatever happened in between to other versions *)
+Section UNDO.
+Variables K V : Type.
+Variable cmp : K -> K -> comparison.
+Hypothesis cmp_eq : forall a b, cmp a b = Eq <-> a = b.
+Hypothesis cmp_antisym : forall a b, cmp b a = CompOpp (cmp a b).
+Hypothesis cmp_trans : forall a b c, cmp a b = Lt -> cmp b c = Lt -> cmp a c = Lt.
+
+Theorem remove_upsert_absent k v l :
+  ssorted K V cmp l -> Spec.lookup K V cmp k l = None -> Spec.remove K V cmp k (Spec.upsert K V cmp k v l) = l.
+Proof.
+  intros S Hl.
+  destruct (sorted_cut K V cmp cmp_eq cmp_antisym cmp_trans k l S) as [a b El Ha Hb|a b v0 El Ha Hb]; subst l.
+  - rewrite (upsert_absent K V cmp cmp_antisym a b k v Ha Hb). apply (remove_present K V cmp cmp_eq a b k v Ha).
+  - rewrite (lookup_present K V cmp cmp_eq a b k v0 Ha) in Hl. discriminate Hl.
+Qed.
+
+Theorem upsert_remove_present k v0 l :
+  ssorted K V cmp l -> Spec.lookup K V cmp k l = Some v0 -> Spec.upsert K V cmp k v0 (Spec.remove K V cmp k l) = l.
+Proof.
+  intros S Hl.
+  destruct (sorted_cut K V cmp cmp_eq cmp_antisym cmp_trans k l S) as [a b El Ha Hb|a b v1 El Ha Hb]; subst l.
+  - rewrite (lookup_absent K V cmp cmp_antisym a b k Ha Hb) in Hl. discriminate Hl.
+  - rewrite (lookup_present K V cmp cmp_eq a b k v1 Ha) in Hl. inversion Hl; subst v1.
+    rewrite (remove_present K V cmp cmp_eq a b k v0 Ha). apply (upsert_absent K V cmp cmp_antisym a b k v0 Ha Hb).
+Qed.
+
+Theorem upsert_same_value k v0 l :
+  ssorted K V cmp l -> Spec.lookup K V cmp k l = Some v0 -> Spec.upsert K V cmp k v0 l = l.
+Proof.
+  intros S Hl.
+  destruct (sorted_cut K V cmp cmp_eq cmp_antisym cmp_trans k l S) as [a b El Ha Hb|a b v1 El Ha Hb]; subst l.
+  - rewrite (lookup_absent K V cmp cmp_antisym a b k Ha Hb) in Hl. discriminate Hl.
+  - rewrite (lookup_present K V cmp cmp_eq a b k v1 Ha) in Hl. inversion Hl; subst v1.
+    apply (upsert_present K V cmp cmp_eq cmp_antisym a b k v0 v0 Ha).
+Qed.
+End UNDO.
+
+(** * ... carried over to the trees: Insert of an absent key followed by Delete of it, and Delete of an
+    entry followed by Insert of it, both succeed and end in a tree with the original listing and -
+    canonical form - the original height, size and shape (hence the same encodings and root name) *)
+Section UNDOT.
+Variables (K V : Type) (cmp : K -> K -> comparison) (veq : V -> V -> bool) (layer : K -> nat).
+Hypothesis cmp_eq : forall a b, cmp a b = Eq <-> a = b.
+Hypothesis cmp_antisym : forall a b, cmp b a = CompOpp (cmp a b).
+Hypothesis cmp_trans : forall a b c, cmp a b = Lt -> cmp b c = Lt -> cmp a c = Lt.
+Hypothesis veq_eq : forall x y, veq x y = true <-> x = y.
+Hypothesis layer_bound : forall k, layer k < max_layer_fuel.
+
+Definition same_tree (m1 m2 : mast K V) : Prop :=
+  m_height K V m1 = m_height K V m2 /\ m_size K V m1 = m_size K V m2 /\
+  exists n1 n2, root_n K V (m_root K V m1) = Some n1 /\ root_n K V (m_root K V m2) = Some n2 /\
+                erase_n K V n1 = erase_n K V n2.
+
+Theorem insert_then_delete_restores bf m l k v :
+  canon K V cmp layer bf m l -> Spec.lookup K V cmp k l = None ->
+  oks (insert K V cmp veq layer m k v) (fun m1 =>
+    oks (delete K V cmp veq layer m1 k v) (fun m2 => canon K V cmp layer bf m2 l /\ same_tree m m2)).
+Proof.
+  intros C Hl.
+  eapply oks_weaken; [exact (insert_ok K V cmp veq layer cmp_eq cmp_antisym cmp_trans veq_eq layer_bound bf m l k v C)|].
+  intros m1 C1.
+  eapply oks_weaken;
+    [exact (delete_ok K V cmp veq layer cmp_eq cmp_antisym cmp_trans veq_eq layer_bound bf m1 _ k v C1
+              (lookup_upsert_same K V cmp cmp_eq cmp_antisym k v l))|].
+  intros m2 C2. cbn beta in C2.
+  rewrite (remove_upsert_absent K V cmp cmp_eq cmp_antisym cmp_trans k v l (cn_sorted _ _ _ _ _ _ _ C) Hl) in C2.
+  split; [exact C2|]. exact (canon_unique K V cmp layer bf m m2 l C C2).
+Qed.
+
+Theorem delete_then_insert_restores bf m l k v :
+  canon K V cmp layer bf m l -> Spec.lookup K V cmp k l = Some v ->
+  oks (delete K V cmp veq layer m k v) (fun m1 =>
+    oks (insert K V cmp veq layer m1 k v) (fun m2 => canon K V cmp layer bf m2 l /\ same_tree m m2)).
+Proof.
+  intros C Hl.
+  eapply oks_weaken; [exact (delete_ok K V cmp veq layer cmp_eq cmp_antisym cmp_trans veq_eq layer_bound bf m l k v C Hl)|].
+  intros m1 C1.
+  eapply oks_weaken; [exact (insert_ok K V cmp veq layer cmp_eq cmp_antisym cmp_trans veq_eq layer_bound bf m1 _ k v C1)|].
+  intros m2 C2. cbn beta in C2.
+  rewrite (upsert_remove_present K V cmp cmp_eq cmp_antisym cmp_trans k v l (cn_sorted _ _ _ _ _ _ _ C) Hl) in C2.
+  split; [exact C2|]. exact (canon_unique K V cmp layer bf m m2 l C C2).
+Qed.
+End UNDOT.
